@@ -19,16 +19,16 @@ PROP = dict(
          'by startpos+moves and by TPS+moves, growing prefixes, takebacks, games played to the end, repeated go, go with every mix of '
          'movetime/wtime/btime/winc/binc incl. 64-bit overflow values), the same with lines dropped/swapped/duplicated, malformed lines '
          'inserted (bad sizes, bad TPS, bad moves, unknown commands, Unicode spaces, NUL bytes), single characters corrupted, quit midway, '
-         'all teinewgame lines removed, a second game without a position, consecutive position commands with equal or extending move lists but different declared starts (startpos / TPS / another TPS, within a game and across teinewgame), byte-level damage, pure garbage, 24 fixed histories; ConfigFactory depth 1-2, '
+         'all teinewgame lines removed, a second game without a position, consecutive position commands with equal or extending move lists but different declared starts (startpos / TPS / another TPS, within a game and across teinewgame), byte-level damage, pure garbage, 24 fixed histories, 10 scripts with one position line of 4095..9222 bytes (a 1000-2300 ply game) then go; ConfigFactory depth 1-2, '
          'three evaluators, table of 0/16/64/256 entries; (b) calcBudget on a dense grid of boundary values and random int64 triples '
-         '(ms-valued GUI clocks, clocks around 1 ms, the whole non-negative int64 range, arbitrary int64). non-trivial = script with at '
+         '(ms-valued GUI clocks, clocks around 1 ms, the whole non-negative int64 range, gametime/5+inc within 2 ms of MaxInt64 incl. the go-line values wtime 3 winc 9223372036854, arbitrary int64). non-trivial = script with at '
          'least one bestmove / triple with a clock; distinct = distinct inputs. Scripts whose clock could cut the search (budget < 20 s) '
          'and 10 timed clock probes (which clock, which increment, movetime cap, 1 ms left = expires at once: class clock-ignored) are judged by the Go oracle only. '
          '(c) CLIENT sessions (K cases): tei.NewClient / Client.NewGame / Player.TEIGetMove / GetMove through their public API against an engine PROCESS - '
          'scripted (the n-th go / position / teinewgame / tei line answered with given bytes: clean and annotated bestmoves in both spellings, info lines, '
          'odd and Unicode spacing, CRLF, blank lines before the answer, bestmove lines with 0 / 2+ words or unparseable moves, stdout closed early with and '
          'without a partial line, stdin closed = failing writes, output for lines the client does not wait on, no answer at all = the client blocks) or the '
-         'real Engine.Run (whole short games, a refused position); 1-3 games per client, boards repeated at later move numbers, deadlines (none / passed / '
+         'real Engine.Run (whole short games, a refused position); 1-3 games per client, boards repeated at later move numbers, deadlines (none / passed / less than 1 ms ahead / '
          'future) and TimeControls with 0 / sub-millisecond / exact-millisecond / huge / negative values, players of earlier games; L1 = what every call '
          'returned (move / error class / panic class / hang) and every line the engine process received. formatTime on boundary and random int64 values (F cases).',
     assumptions=['searches are compared only when the clock cannot cut them (budget absent or >= 20 s); tiny-clock scripts are judged by the oracle only',
@@ -53,12 +53,12 @@ MANIFEST = dict(
          "CLIENT side (tei/client.go, tei/time.go; model coq/TeiClient.v over an arbitrary engine process, and over Tei.v as that process): the engine that reads the "
          "client's teinewgame + position lines holds exactly the position given, for every position of C10's exact round trip (client_position_line_exact); the "
          "durations the engine parses from the client's go line are the client's deadline and clock values rounded down to whole ms, never below 0, and the client "
-         "refuses exactly the clock values that are neither 0 nor >= 1 ms (client_go_line, client_go_refused); hence the engine's budget for the client's go line is below the CLIENT's clock of the side to move and at most the time to the client's deadline when that is >= 1 ms (client_budget_within_clock; a nearer deadline is sent as movetime 0 = uncapped: client_deadline_below_1ms_uncapped); NewGame ; TEIGetMove against the engine model with a "
+         "refuses exactly a deadline less than 1 ms ahead and clock values that are neither 0 nor >= 1 ms (client_go_line, client_go_refused); hence the engine's budget for the client's go line is below the CLIENT's clock of the side to move and at most the time to the client's deadline when that is >= 1 ms for every deadline (client_budget_within_clock, client_deadline_always_capped: the repaired client refuses a deadline less than 1 ms ahead; the code before the repair sent it as movetime 0 = uncapped: client_deadline_uncapped_refuted_pinned); NewGame ; TEIGetMove against the engine model with a "
          "searcher_ok searcher returns the searcher's move, legal in the position, via FormatMove/ParseMove (client_server_move_legal); the client model panics only "
          "as a dead player or on an engine line without a word (client_total), never against the engine model (client_tei_no_panic). Every client session of the "
          "check (~160 quick: scripted and real engine processes) is run through the extracted client model: results and wire lines agree.",
     ref='5.17', technique='Coq proof (history invariant by induction over the command list; lia over wrapped int64) + extracted-model/implementation differential + Go protocol oracle',
     note="Trusted: Coq kernel, extraction, hand transcription of tei/server.go and tei/client.go (validated by execution only), generators, the Go oracle, the scripted engine process of the harness. "
-         "Known behaviour of the client recorded, not judged: an engine line without a word makes sendCommand panic (index out of range); a deadline less than 1 ms ahead is sent as `movetime 0` = no limit; "
+         "Known behaviour of the client recorded, not judged: an engine line without a word makes sendCommand panic (index out of range); "
          "a go the engine does not answer (finished game) blocks TEIGetMove for ever. "
          "spec_position replays moves with the position-level move model (tied to the rules by C01), not with Rules.v directly.")
